@@ -120,17 +120,44 @@ def true_pixel_area(d, ix, iy):
     return ellipse_pixel_area(cx, cy, a, b, c, s, D(ix) - D('0.5'), D(ix) + D('0.5'), D(iy) - D('0.5'), D(iy) + D('0.5'))
 
 
-def boundary_in_pixel(d, ix, iy, nsamp=3000):
-    """(length of the boundary curve inside the pixel, number of connected pieces), by sampling."""
+def boundary_in_pixel(d, ix, iy, nsamp=3000, refine=400):
+    """(length of the boundary curve inside the pixel, number of connected pieces), by sampling.
+
+    Two passes: a coarse pass finds the parameter ranges that come near the pixel, a fine pass
+    (refine x denser) measures them.  The returned length is an UPPER estimate (fine estimate plus
+    one fine segment for each of the at most 8 piece ends an ellipse can have in a square), so that the
+    bound derived from it is never smaller than the property's; a piece shorter than two fine
+    segments (~1e-5) that is missed altogether stays within its own length of the pixel border, cannot
+    contain a sub-sample centre and changes the true area by less than 1e-9."""
     cx, cy, a, b, c, s = (float(v) for v in shape_params(d))
+
+    def curve(t):
+        return (cx + a * np.cos(t) * c - b * np.sin(t) * s,
+                cy + a * np.cos(t) * s + b * np.sin(t) * c)
     t = np.linspace(0, 2 * math.pi, nsamp + 1)
-    x = cx + a * np.cos(t) * c - b * np.sin(t) * s
-    y = cy + a * np.cos(t) * s + b * np.sin(t) * c
-    mx, my = (x[:-1] + x[1:]) / 2, (y[:-1] + y[1:]) / 2
-    inside = (np.abs(mx - ix) <= 0.5) & (np.abs(my - iy) <= 0.5)
-    seg = np.hypot(np.diff(x), np.diff(y))
-    pieces = int(np.sum(inside & ~np.roll(inside, 1)))
-    return float(seg[inside].sum()), max(pieces, 1 if inside.any() else 0)
+    x, y = curve(t)
+    segmax = float(np.hypot(np.diff(x), np.diff(y)).max())
+    near = (np.abs(x - ix) <= 0.5 + 2 * segmax) & (np.abs(y - iy) <= 0.5 + 2 * segmax)
+    nearseg = near[:-1] | near[1:]
+    if not nearseg.any():
+        return 0.0, 0
+    total, pieces, fine_max = 0.0, 0, 0.0
+    idx = np.nonzero(nearseg)[0]
+    # consecutive coarse segments form one run; each run is refined as one parameter interval
+    runs = np.split(idx, np.nonzero(np.diff(idx) > 1)[0] + 1)
+    for run in runs:
+        tt = np.linspace(t[run[0]], t[run[-1] + 1], (len(run)) * refine + 1)
+        fx, fy = curve(tt)
+        mx, my = (fx[:-1] + fx[1:]) / 2, (fy[:-1] + fy[1:]) / 2
+        inside = (np.abs(mx - ix) <= 0.5) & (np.abs(my - iy) <= 0.5)
+        seg = np.hypot(np.diff(fx), np.diff(fy))
+        fine_max = max(fine_max, float(seg.max()))
+        total += float(seg[inside].sum())
+        starts = inside & ~np.concatenate(([False], inside[:-1]))
+        pieces += int(starts.sum())
+    if total == 0.0 and pieces == 0:
+        return 8 * fine_max, 0
+    return total + 8 * fine_max, max(pieces, 1)
 
 
 class Check(PropertyCheck):
@@ -170,7 +197,7 @@ class Check(PropertyCheck):
             if kind == 'circle':
                 d = {'kind': 'circle', 'c': c, 'r': scale * rng.uniform(0.5, 1.5) if not nice else scale * rng.choice([0.5, 1.0, 1.5]), 'include': 'absent'}
             else:
-                ratio = rng.choice([1.0, 1.3, 3.0, 10.0, 100.0])
+                ratio = rng.choice([1.0, 1.0 + 3e-6, 1.0 - 2e-6, 1.3, 3.0, 10.0, 100.0])
                 w = 2 * scale * rng.uniform(0.7, 1.4)
                 d = {'kind': 'ellipse', 'c': c, 'w': w, 'h': max(w / ratio, 2e-3), 'angle': G.rangle(rng), 'include': 'absent'}
             cases.append({'kind': 'exact/' + kind, 'region': d, 'pick': rng.randrange(1 << 30)})
